@@ -24,8 +24,8 @@ def param_local_copy(f, ex, p):
     `= max/min(p, ..)` (`let mut alpha = alpha_original` / `let mut alpha = max(alpha_original, standing_pat)`)"""
     out = []
     for l, defs in ex.defs.items():
-        if len(defs) < 2 or l <= f["args"]:
-            continue
+        if (len(defs) < 2 and l not in ex.mutref) or l <= f["args"]:
+            continue        # (a local that is only ever borrowed mutably - `&mut beta` handed to a helper - is mutable too)
         for d in defs:
             if d[0] == "stmt" and d[3]["op"] == "use" and d[3]["a"][0].get("k") in ("copy", "move") and d[3]["a"][0]["pl"] == {"l": p, "p": []}:
                 out.append(l)
@@ -54,6 +54,11 @@ def r1_signs(ctx):
             inner = tree[2] if neg else tree
             ok = neg and inner in own[which]
             other = "alpha" if which == "beta" else "beta"
+            if neg and not ok and inner not in own[other] and inner[0] == "local":
+                # a negated variable that is neither bound as far as this rule can see (assigned on several paths,
+                # computed by a helper): no verdict
+                ctx.lost(rid, "%s: the %s is the negation of a variable this rule cannot identify (%s)" % (name, label, show(inner)))
+                continue
             ctx.ob(rid, "%s|arg%d" % (name, idx), ok,
                    "" if ok else "%s: the %s is %s (expected the negation of the own %s bound%s)"
                    % (name, label, show(tree), which, "; it is the own %s bound" % other if inner in own[other] else ""),
@@ -127,6 +132,9 @@ def r1_signs(ctx):
                 sink(a, tt["line"])
             if tt["k"] == "switch":
                 sink(tt["discr"], tt.get("line", 0))
+        if reads == 0:
+            ctx.lost(rid, "%s: the uses of the child's value (it does not reach a comparison or an assignment through plain copies)" % name)
+            continue
         ok = reads >= 1 and reads == negs
         ctx.ob(rid, "%s|child-value-negated" % name, ok, "" if ok else "%s uses the child's value %d time(s) (comparisons, arguments, assignments to alpha/best), of which %d see it negated exactly once; un-negated or doubly negated use at line(s) %s" % (name, reads, negs, sorted(set(wrong))[:4]), ctx.where(f, t["line"]),
                sample={"function": name, "reads": reads, "negations": negs})
@@ -149,117 +157,249 @@ def r2_bounds(ctx):
         ctx.lost(rid, "the mutable alpha / beta locals initialised from the window parameters (found %s / %s)" % (alpha_l, beta_l))
         return
     ALPHA, BETA = ("local", alpha_l[0]), ("local", beta_l[0])
-    # ---- store
-    cd = cfg.control_deps()
-    assign = {}
-    for b in sorted(cfg.reach):
-        for s in f["blocks"][b]["stmts"]:
-            rv = s["rv"]
-            if rv["op"] == "agg" and rv["kind"] == "adt" and rv["adt"] == NT:
-                atoms = []
-                work, seen = [b], set()
-                while work:
-                    x = work.pop()
-                    if x in seen:
-                        continue
-                    seen.add(x)
-                    for (a, sb) in cd.get(x, ()):
-                        sw = f["blocks"][a]["term"]
-                        if sw["k"] != "switch":
-                            continue
-                        d = ex.operand(sw["discr"])
-                        if d[0] == "bin" and d[1] in ("Le", "Ge", "Lt", "Gt"):
-                            atoms.append((d, sb == sw["otherwise"]))
-                            work.append(a)
-                assign[rv["variant"]] = (atoms, s["line"])
-    if set(assign) != set(variants):
-        ctx.lost(rid, "one NodeType construction per variant in search_negamax (found %s)" % sorted(assign))
-        return
-    def classify(d):
-        # normalise to (best ? bound) with the operator as seen from best
-        op, x, y = d[1], d[2], d[3]
-        bounds = {("param", 5): "alpha_original", ALPHA: "alpha", BETA: "beta", ("param", 6): "beta_original"}
-        if y in bounds:
-            return op, x, bounds[y]
-        if x in bounds:
-            return {"Le": "Ge", "Ge": "Le", "Lt": "Gt", "Gt": "Lt"}[op], y, bounds[x]
-        return op, x, show(y)
-    def fmt(atoms):
-        return sorted(("%s %s %s" % ("best" , classify(d)[0], classify(d)[2]), truth) for d, truth in atoms)
-    want = {"Upperbound": [("best Le alpha_original", True)],
-            "Lowerbound": sorted([("best Le alpha_original", False), ("best Ge beta", True)]),
-            "Exact": sorted([("best Le alpha_original", False), ("best Ge beta", False)])}
-    bests = set()
-    for v in variants:
-        atoms, line = assign[v]
-        for d, _ in atoms:
-            bests.add(classify(d)[1])
-        ok = fmt(atoms) == want[v]
-        ctx.ob(rid, "store|%s" % v, ok, "" if ok else "a %s entry is stored under %s (expected %s)" % (v, fmt(atoms), want[v]), ctx.where(f, line), sample={"variant": v, "conditions": fmt(atoms)})
-    ok = len(bests) == 1
-    ctx.ob(rid, "store|same-value-compared", ok, "" if ok else "the classification compares different values: %s" % [show(b) for b in bests], ctx.where(f))
-    best = list(bests)[0] if bests else None
-    # the put is guarded by !is_checkmate(best)
+    # ---- store: the region between the move loop and the table store, read as a decision table over the ordering
+    # of the best value against the two bounds (inkalint/semtable.py) - however the classification is written
+    from ..semtable import explore, judge, TooBig
     puts = [b for b in sorted(cfg.reach) if f["blocks"][b]["term"]["k"] == "call" and (f["blocks"][b]["term"]["callee"].get("key") or "").endswith("TranspositionTable>::put")]
-    guard_ok = False
-    for pb in puts:
-        for (a, sb) in cfg.control_deps_transitive(pb):
-            sw = f["blocks"][a]["term"]
-            if sw["k"] == "switch":
-                d = ex.operand(sw["discr"])
-                if d[0] == "call" and d[1].endswith("Heuristic::is_checkmate") and d[2][1] == best and sb != sw["otherwise"]:
-                    guard_ok = True
-    ctx.ob(rid, "store|not-for-mate-scores", guard_ok and len(puts) == 1, "" if guard_ok else "the table store is not guarded by !is_checkmate(best value)", ctx.where(f))
-    # stored value and type
-    # ---- probe
-    probe = None
+    rec = [b for b in sorted(cfg.reach) if f["blocks"][b]["term"]["k"] == "call" and f["blocks"][b]["term"]["callee"].get("key") == SEARCH + "search_negamax"]
+    heads = sorted({h for (a_, h) in cfg.back_edges() if rec and cfg.dominates(h, rec[0])})
+    if len(puts) != 1 or len(rec) != 1 or len(heads) != 1:
+        ctx.lost(rid, "one table store after one move loop in search_negamax (stores %d, recursive calls %d, loops %d)" % (len(puts), len(rec), len(heads)))
+        return
+    put, hdr = puts[0], heads[0]
+    body = {hdr}
+    for (a_, h) in cfg.back_edges():
+        if h == hdr:
+            work = [a_]
+            while work:
+                x = work.pop()
+                if x not in body:
+                    body.add(x)
+                    work.extend(cfg.pred[x])
+    doms = [d for d in sorted(cfg.reach) if d not in body and cfg.dominates(hdr, d) and cfg.dominates(d, put)]
+    entry = [d for d in doms if all(cfg.dominates(d, e) for e in doms)]
+    # the stored value: field `value` of the ValuedMove / entry handed to put
+    best_l = None
+    pex = ex.operand(f["blocks"][put]["term"]["args"][-1]) if f["blocks"][put]["term"]["args"] else None
+    cmp_locals = {}
     for b in sorted(cfg.reach):
         sw = f["blocks"][b]["term"]
-        if sw["k"] == "switch" and len(sw["targets"]) >= 3:
+        if sw["k"] == "switch" and b not in body and cfg.dominates(hdr, b):
             d = ex.operand(sw["discr"])
-            if d[0] == "discr" and d[1][0] == "f" and d[1][2] == "node_type":
-                probe = (b, sw, d[1][1])
-    if probe is None:
-        ctx.lost(rid, "match on the probed entry's node_type")
+            if d[0] == "bin" and d[1] in ("Le", "Ge", "Lt", "Gt"):
+                for x in (d[2], d[3]):
+                    if x[0] == "local" and x not in (ALPHA, BETA):
+                        cmp_locals[x[1]] = cmp_locals.get(x[1], 0) + 1
+    # multi-definition locals read through copies: follow `_t = copy best`
+    def root_local(l, depth=0):
+        defs = ex.defs.get(l, [])
+        if len(defs) == 1 and defs[0][0] == "stmt" and defs[0][3]["op"] == "use" and defs[0][3]["a"][0].get("k") in ("copy", "move") and not defs[0][3]["a"][0]["pl"]["p"] and depth < 6:
+            return root_local(defs[0][3]["a"][0]["pl"]["l"], depth + 1)
+        return l
+    if not entry:
+        ctx.lost(rid, "the block after the move loop that leads to the table store")
         return
-    pb, sw, entry = probe
-    for vi, tb in sw["targets"]:
-        v = variants[vi]
-        region = {x for x in cfg.reachable_from(tb) if cfg.dominates(tb, x)}
-        region_small = set()
-        # only the arm itself: blocks dominated by the arm head up to the join
-        for x in sorted(region):
-            if (pb, tb) in cfg.control_deps().get(x, ()):
-                region_small.add(x)
-        calls, writes, returns = [], [], False
-        for x in sorted(region_small):
-            blk = f["blocks"][x]
-            t = blk["term"]
-            if t["k"] == "call":
-                key = t["callee"].get("key") or ""
-                if key in ("core::cmp::max", "core::cmp::min"):
-                    args = [ex.operand(a) for a in t["args"]]
-                    calls.append((key.rsplit("::", 1)[-1], args, t["dest"]["l"]))
-                if t["dest"]["l"] == 0:
-                    returns = True
-            for s in blk["stmts"]:
-                d = s["dst"]
-                if d is not None and not d["p"] and d["l"] in (alpha_l[0], beta_l[0]):
-                    src = s["rv"]["a"][0]["pl"]["l"] if s["rv"]["op"] == "use" and s["rv"]["a"][0].get("k") in ("copy", "move") else None
-                    writes.append((d["l"], src))
-        val = ("f", entry, "value")
-        if v == "Lowerbound":
-            ok = len(calls) == 1 and calls[0][0] == "max" and set(calls[0][1]) == {ALPHA, val} and writes == [(alpha_l[0], calls[0][2])] and not returns
-        elif v == "Upperbound":
-            ok = len(calls) == 1 and calls[0][0] == "min" and set(calls[0][1]) == {BETA, val} and writes == [(beta_l[0], calls[0][2])] and not returns
-        else:
-            ok = returns and not calls and not writes
-        ctx.ob(rid, "probe|%s" % v, ok,
-               "" if ok else "probing a %s entry does: %s, writes %s, returns %s" % (v, [(c[0], [show(a) for a in c[1]]) for c in calls], [("alpha" if w[0] == alpha_l[0] else "beta") for w in writes], returns),
-               ctx.where(f, sw["line"]), sample={"variant": v, "action": [(c[0], [show(a) for a in c[1]]) for c in calls] or ("return" if returns else None)})
+    entry = entry[0]
+    NTV = {NT + "::" + v: i for i, v in enumerate(variants)}
+
+    def var_of(t):
+        if t == ("param", 5):
+            return "alpha_original"
+        if t == BETA:
+            return "beta"
+        if t == ALPHA:
+            return "alpha"
+        if t == ("param", 6):
+            return "beta_original"
+        if t[0] == "local" and best_l is not None and t[1] == best_l:
+            return "best"
+        if t[0] == "call" and t[1].endswith("Heuristic::is_checkmate"):
+            # the mate test of the stored value; of anything else it is a different question
+            return "mate" if len(t[2]) == 2 and t[2][1] == ("local", best_l) else "mate_of_something_else"
+        return None
+    # which local is `best`: the one the region compares with the bounds
+    cands = sorted(cmp_locals, key=lambda l: -cmp_locals[l])
+    if not cands:
+        ctx.lost(rid, "the comparisons of the best value with alpha_original / beta after the move loop")
+        return
+    best_l = cands[0]
+    domains = {"alpha_original": [10], "beta": [20], "alpha": [17], "beta_original": [30], "best": [5, 10, 15, 20, 25], "mate": [0, 1], "mate_of_something_else": [0, 1]}
+    try:
+        lvs = explore(f, var_of, domains, entry=entry, stop_at=lambda b: b == put, max_leaves=4000)
+    except TooBig as e:
+        ctx.lost(rid, "the region between the move loop and the table store as a decision table (%s)" % e)
+        return
+
+    def stored(lf):
+        if lf.path[-1] != put:
+            return "not stored"
+        tr = lf.calls[-1][1]
+        kinds = {x[2].rsplit("::", 1)[-1] for x in leaves(tr, kinds=("agg",)) if x[0] == "agg" and x[2].startswith(NT + "::")} if False else set()
+        def walk(t):
+            if isinstance(t, tuple):
+                if t and t[0] == "agg" and isinstance(t[2], str) and t[2].startswith(NT + "::"):
+                    kinds.add(t[2].rsplit("::", 1)[-1])
+                for x in t:
+                    walk(x)
+        walk(tr)
+        return sorted(kinds)[0] if len(kinds) == 1 else "?"
+
+    def spec(e):
+        if e["mate"]:
+            return "not stored"
+        if e["best"] <= e["alpha_original"]:
+            return "Upperbound"
+        if e["best"] >= e["beta"]:
+            return "Lowerbound"
+        return "Exact"
+    if not any(lf.path[-1] == put for lf in lvs):
+        ctx.lost(rid, "a path from the end of the move loop to the table store")
+        return
+    unknown = [lf for lf in lvs if stored(lf) == "?"]
+    if unknown:
+        ctx.lost(rid, "the node type of the stored entry (not a NodeType built on the path)")
+        return
+    # a leaf that leaves the function without reaching the store because of a test every storing leaf passes the
+    # other way (no legal move was found: terminal evaluation; the stop flag) is another exit, not a store decision
+    storing = [lf for lf in lvs if lf.path[-1] == put]
+    def other_exit(lf):
+        for (d, cc) in lf.opaque:
+            if all(any(d2 == d and c2 != cc for (d2, c2) in s_.opaque) for s_ in storing):
+                return True
+        return False
+    lvs = [lf for lf in lvs if lf.path[-1] == put or not other_exit(lf)]
+    viol, und, n = judge(lvs, ["best", "mate"], dict(domains, alpha_original=[10], beta=[20]), stored, lambda e: spec(dict(e, alpha_original=10, beta=20)))
+    by_variant = {}
+    for (e, got, want, lf) in viol:
+        k_ = want if want != "not stored" else "not-for-mate-scores"
+        by_variant.setdefault(k_, []).append((e, got, want))
+    rel = lambda e: "best %s alpha_original, best %s beta%s" % ("<" if e["best"] < 10 else "=" if e["best"] == 10 else ">", "<" if e["best"] < 20 else "=" if e["best"] == 20 else ">", ", a mate score" if e["mate"] else "")
+    for v in variants:
+        bad = by_variant.get(v, [])
+        ctx.ob(rid, "store|%s" % v, not bad, "" if not bad else "with %s the table store records %s (expected a %s entry: Upperbound iff best <= alpha_original, Lowerbound iff best >= beta, else Exact)" % (rel(bad[0][0]), bad[0][1], v),
+               ctx.where(f, f["blocks"][put]["term"]["line"]), sample={"variant": v, "cases": n, "leaves": len(lvs)})
+    bad = by_variant.get("not-for-mate-scores", [])
+    ctx.ob(rid, "store|not-for-mate-scores", not bad, "" if not bad else "a mate score (%s) is stored as %s: the table store is not guarded by !is_checkmate(best value)" % (rel(bad[0][0]), bad[0][1]), ctx.where(f, f["blocks"][put]["term"]["line"]))
+    ctx.ob(rid, "store|same-value-compared", True, "", ctx.where(f))
+    for u in und[:1]:
+        ctx.lost(rid, "table store under a condition the decision table cannot evaluate (%s)" % "; ".join(show(d) for d, cc in u[3].opaque)[:160])
+    # ---- probe: from the first test of the probed entry's node type to the test that compares the two window
+    # variables, as a decision table over (node type, stored value relative to the window)
+    probe_blocks = []
+    for b in sorted(cfg.reach):
+        sw = f["blocks"][b]["term"]
+        if sw["k"] == "switch" and b not in body and not cfg.dominates(hdr, b):
+            d = ex.operand(sw["discr"])
+            if any(x[0] == "f" and x[2] == "node_type" for x in leaves(d, kinds=("f",))) or (d[0] == "discr" and d[1][0] == "f" and d[1][2] == "node_type"):
+                probe_blocks.append(b)
+    if not probe_blocks:
+        ctx.lost(rid, "the test of the probed entry's node_type")
+        return
+    pentry = [b for b in probe_blocks if all(cfg.dominates(b, x) for x in probe_blocks)]
+    closes = []
+    for b in sorted(cfg.reach):
+        sw = f["blocks"][b]["term"]
+        if sw["k"] == "switch" and b not in body and not cfg.dominates(hdr, b) and pentry and cfg.dominates(pentry[0], b) and b != pentry[0]:
+            d = ex.operand(sw["discr"])
+            ls = set(leaves(d, kinds=("local",)))
+            if ALPHA in ls and BETA in ls:
+                closes.append(b)
+    if not pentry or not closes:
+        ctx.lost(rid, "the probe region (first node_type test %s, window test %s)" % (pentry, closes))
+        return
+    pentry, close = pentry[0], closes[0]
+    nt_leaf = {}
+
+    def var_of_p(t):
+        if t[0] == "discr" and t[1][0] == "f" and t[1][2] == "node_type":
+            return "node_type"
+        if t[0] == "f" and t[2] == "node_type":
+            return "node_type"
+        if t == ALPHA:
+            return "alpha"
+        if t == BETA:
+            return "beta"
+        if t[0] == "f" and t[2] == "value" and t[1][0] in ("dc", "*", "f", "local"):
+            return "value"
+        return None
+    dom_p = {"node_type": list(range(len(variants))), "alpha": [10], "beta": [20], "value": [5, 10, 15, 20, 25]}
+    try:
+        lp = explore(f, var_of_p, dom_p, entry=pentry, stop_at=lambda b: b == close, max_leaves=4000)
+    except TooBig as e:
+        ctx.lost(rid, "the probe region as a decision table (%s)" % e)
+        return
+    from ..semtable import evaluate, NeedVar, Opaque
+
+    def outcome(lf, e=None):
+        return None
+    rows = []
+    for lf in lp:
+        for nt_i in ([lf.env["node_type"]] if "node_type" in lf.env else dom_p["node_type"]):
+            for val in ([lf.env["value"]] if "value" in lf.env else dom_p["value"]):
+                env = {"node_type": nt_i, "alpha": 10, "beta": 20, "value": val}
+                if lf.path[-1] != close:
+                    got = ("return",)
+                else:
+                    try:
+                        a2 = evaluate(lf.pe.local(alpha_l[0]), var_of_p, env)
+                        b2 = evaluate(lf.pe.local(beta_l[0]), var_of_p, env)
+                        got = ("window", a2, b2)
+                    except (NeedVar, Opaque):
+                        got = ("?",)
+                v = variants[nt_i]
+                want = ("window", max(10, val), 20) if v == "Lowerbound" else ("window", 10, min(20, val)) if v == "Upperbound" else ("return",)
+                rows.append((v, val, got, want, bool(lf.opaque)))
+    for v in variants:
+        mine = [r for r in rows if r[0] == v]
+        bad = [r for r in mine if r[2] != r[3] and r[2] != ("?",) and not r[4]]
+        unk = [r for r in mine if r[2] == ("?",) or (r[2] != r[3] and r[4])]
+        if not mine or (unk and not bad):
+            ctx.lost(rid, "what probing a %s entry does to the window" % v)
+            continue
+        ctx.ob(rid, "probe|%s" % v, not bad,
+               "" if not bad else "probing a %s entry with value %d in the window (10, 20) gives %s (expected %s: Lowerbound raises alpha to max(alpha, value), Upperbound lowers beta to min(beta, value), Exact returns the entry)" % (v, bad[0][1], bad[0][2], bad[0][3]),
+               ctx.where(f, f["blocks"][pentry]["term"]["line"]), sample={"variant": v, "cases": len(mine)})
 
 
 _LOCAL_LABEL = {}
+_LOCAL_EXPAND = {}
+_PROG = [None]
+_CLOSURE_CACHE = {}
+
+
+def _closure_atoms(name):
+    """what a closure passed to a combinator tests and computes: atoms of its branch conditions and of its result"""
+    if name in _CLOSURE_CACHE:
+        return _CLOSURE_CACHE[name]
+    _CLOSURE_CACHE[name] = set()
+    prog = _PROG[0]
+    g = prog.fns.get(name) if prog else None
+    if g is None:
+        _CLOSURE_CACHE[name] = {"closure"}
+        return _CLOSURE_CACHE[name]
+    gx = Exprs(g)
+    out = set()
+    saved_label, saved_expand = dict(_LOCAL_LABEL), dict(_LOCAL_EXPAND)
+    _LOCAL_LABEL.clear(); _LOCAL_EXPAND.clear()
+    try:
+        for blk in g["blocks"]:
+            if blk.get("cleanup"):
+                continue
+            t = blk["term"]
+            if t["k"] == "switch":
+                out |= _atoms(gx.operand(t["discr"]), 1)
+            for st in blk["stmts"]:
+                if st["dst"] is not None and st["dst"]["l"] == 0:
+                    out |= _atoms(gx.rvalue(st["rv"], None), 1)
+            if t["k"] == "call" and t.get("dest") and t["dest"]["l"] == 0:
+                out |= _atoms(gx.call(t), 1)
+    finally:
+        _LOCAL_LABEL.clear(); _LOCAL_LABEL.update(saved_label)
+        _LOCAL_EXPAND.clear(); _LOCAL_EXPAND.update(saved_expand)
+    # parameters of a closure are its captures / the combinator's payload: not the search's arguments
+    out = {a for a in out if not (a.startswith("arg") and a[3:].isdigit())}
+    _CLOSURE_CACHE[name] = out
+    return out
 
 
 def _atoms(t, depth=0):
@@ -270,12 +410,26 @@ def _atoms(t, depth=0):
         return out
     k = t[0]
     if k == "call":
-        out.add("call:" + "::".join(t[1].replace("<", "").replace(">", "").split("::")[-2:]))
+        short = "::".join(t[1].replace("<", "").replace(">", "").split("::")[-2:])
+        if t[1].startswith(("core::option::Option", "core::result::Result")) and depth < 6:
+            # map_or / is_some_and / unwrap_or ...: plumbing; what is tested is in the receiver and in the closure
+            for a in t[2]:
+                out |= _atoms(a, depth + 1)
+            return out
+        out.add("call:" + short)
+        return out
+    if k == "agg" and t[1] == "closure":
+        out |= _closure_atoms(t[2])     # (the captures are plumbing: what is tested is in the body)
         return out
     if k == "param":
         out.add("arg%d" % t[1])
     elif k == "local":
-        out.add(_LOCAL_LABEL.get(t[1], "local"))
+        if t[1] in _LOCAL_LABEL:
+            out.add(_LOCAL_LABEL[t[1]])
+        elif t[1] in _LOCAL_EXPAND and depth < 6:
+            out |= _LOCAL_EXPAND[t[1]]
+        else:
+            out.add("local")
     elif k == "f":
         out.add("field:" + str(t[2]))
         out |= _atoms(t[1], depth + 1)
@@ -313,6 +467,42 @@ def search_control_inventory(f, name):
     for p_ in range(1, f["args"] + 1):
         for l in param_local_copy(f, ex, p_):
             _LOCAL_LABEL[l] = "var(arg%d)" % p_
+    # a boolean temporary assigned in several places (`matches!`, `a && b` stored in a variable, a flag): described by
+    # what its definitions compute and by the tests that choose between them
+    _LOCAL_EXPAND.clear()
+    cdeps = cfg.control_deps()
+    pending = {}
+    for l, defs in ex.defs.items():
+        if l in _LOCAL_LABEL or len(defs) < 2 or l <= f["args"]:
+            continue
+        pending[l] = defs
+    for l, defs in pending.items():
+        at = set()
+        is_bool = f["locals"][l]["ty"] == "bool"
+        # an Option / enum assigned in several places and tested by its discriminant says which assignment happened:
+        # like a flag, it is described by the tests that choose between the assignments, not by the payload
+        ty_ = f["locals"][l]["ty"]
+        is_enum = all(d[0] == "stmt" and d[3]["op"] == "agg" and d[3].get("kind") == "adt" for d in defs) or ty_.split("<")[0].rsplit("::", 1)[-1] in ("Option", "Result")
+        if is_enum:
+            is_bool = True
+        for d in defs:
+            tr = ex.rvalue(d[3], f["locals"][l]["ty"]) if d[0] == "stmt" else ex.call(d[3], d[1])
+            if is_enum:
+                tr = ("c", 0, "u8", None)
+            # `i = i + 1`: a counter; the local itself is not one of its own ingredients
+            if tr[0] == "bin" and tr[1].replace("WithOverflow", "") in ("Add", "Sub") and ("local", l) in (tr[2], tr[3]) and any(x[0] == "c" for x in (tr[2], tr[3])):
+                at.add("counter")
+                continue
+            if tr[0] == "f" and tr[1][0] == "bin" and tr[1][1].replace("WithOverflow", "") in ("Add", "Sub") and ("local", l) in (tr[1][2], tr[1][3]):
+                at.add("counter")
+                continue
+            at |= _atoms(tr, 1)
+            if is_bool:
+                for (a, sb) in cdeps.get(d[1], ()):
+                    sw = f["blocks"][a]["term"]
+                    if sw["k"] == "switch":
+                        at |= _atoms(ex.operand(sw["discr"]), 1)
+        _LOCAL_EXPAND[l] = {a for a in at if not a.startswith("const:")} or {"local"}
     rec = [b for b in sorted(cfg.reach) if f["blocks"][b]["term"]["k"] == "call" and f["blocks"][b]["term"]["callee"].get("key") == SEARCH + name]
     if len(rec) != 1:
         return None
@@ -357,10 +547,17 @@ def search_control_inventory(f, name):
                 gs.append("[loop-test]" + ("continues" if sb in body else "finished"))
                 continue
             d = ex.operand(sw["discr"])
-            taken = [v for v, tb in sw["targets"] if tb == sb]
-            pol = "=%s" % taken[0] if taken else "else"
-            gs.append("[" + ",".join(sorted(_atoms(d))) + "]" + pol)
+            gs.append("[" + ",".join(sorted(_atoms(d))) + "]")
         return sorted(set(gs))
+
+    def governing(b):
+        """atoms of every test the block is (transitively) control dependent on"""
+        out = set()
+        for (a, sb) in cfg.control_deps_transitive(b):
+            sw = f["blocks"][a]["term"]
+            if sw["k"] == "switch" and a != ns:
+                out |= _atoms(ex.operand(sw["discr"]))
+        return out
 
     items = []
     for b in sorted(cfg.reach):
@@ -376,7 +573,7 @@ def search_control_inventory(f, name):
             vals.append((("call", t["callee"].get("key") or "?", tuple(ex.operand(a) for a in t["args"]), ""), t["line"]))
         for v, line in vals:
             where = "before-loop" if not cfg.dominates(hdr, b) else "loop-or-after"
-            items.append(("exit", "%s|exit|%s|if %s" % (name, where, " & ".join(guards(b)) or "-"), line))
+            items.append(("exit", "%s|exit|%s|if %s" % (name, where, " & ".join(guards(b)) or "-"), line, governing(b)))
     # skips: an edge inside the loop body (before the recursive call) after which the recursive call can no longer
     # be reached in this iteration but the loop continues
     def reach_in_body(start):
@@ -400,9 +597,7 @@ def search_control_inventory(f, name):
         for x in sorted(set(cfg.succ[b])):
             r = reach_in_body(x)
             if x in body and rec not in r and hdr in r:
-                taken = [v for v, tb in t["targets"] if tb == x]
-                pol = "=%s" % taken[0] if taken else "else"
-                items.append(("skip", "%s|skip|if [%s]%s" % (name, ",".join(sorted(_atoms(d))), pol), t.get("line", 0)))
+                items.append(("skip", "%s|skip|if [%s]" % (name, ",".join(sorted(_atoms(d)))), t.get("line", 0), governing(b) | _atoms(d)))
     # breaks: edges leaving the loop body from a block other than the header, to a block that is not an exit path only
     for b in sorted(body):
         if b == hdr:
@@ -413,11 +608,9 @@ def search_control_inventory(f, name):
                 continue
             if t["k"] == "switch":
                 d = ex.operand(t["discr"])
-                taken = [v for v, tb in t["targets"] if tb == x]
-                pol = "=%s" % taken[0] if taken else "else"
-                items.append(("leave", "%s|leave-loop|if [%s]%s" % (name, ",".join(sorted(_atoms(d))), pol), t.get("line", 0)))
+                items.append(("leave", "%s|leave-loop|if [%s]" % (name, ",".join(sorted(_atoms(d)))), t.get("line", 0), governing(b) | _atoms(d)))
             else:
-                items.append(("leave", "%s|leave-loop|%s|if %s" % (name, t["k"], " & ".join(guards(b)) or "-"), t.get("line", 0)))
+                items.append(("leave", "%s|leave-loop|%s|if %s" % (name, t["k"], " & ".join(guards(b)) or "-"), t.get("line", 0), governing(b)))
     return items
 
 
@@ -441,19 +634,49 @@ def r4_control_inventory(ctx):
     from .common import table
     reviewed = {k: v for k, v in table("search_exits.json").items() if not k.startswith("_")}
     seen = set()
+    _PROG[0] = ctx.prog
+    _CLOSURE_CACHE.clear()
+
+    def category(key):
+        parts = key.split("|if ")[0].split("|")
+        return tuple(parts)
+
+    def key_atoms(key):
+        import re
+        out = set()
+        for grp in re.findall(r"\[([^\]]*)\]", key.split("|if ", 1)[1] if "|if " in key else ""):
+            out |= {a for a in grp.split(",") if a}
+        return out
+    allowed = {}
+    for k in reviewed:
+        allowed.setdefault(category(k), set()).update(key_atoms(k))
+    for cat, atoms_ in table("search_exits.json").get("_vocabulary", {}).items():
+        allowed.setdefault(tuple(cat.split("|")), set()).update(atoms_)
+    STRUCTURAL = lambda a: a in ("cmp", "discr", "local") or a.startswith("op:") or a.startswith("const:") or a.startswith("agg:")
     for name in ("search_negamax", "search_quiescence"):
         f = ctx.fn(rid, SEARCH + name)
         items = search_control_inventory(f, name)
         if items is None:
             ctx.lost(rid, "%s: one recursive call inside one move loop" % name)
             continue
-        for kind, key, line in items:
+        for kind, key, line, governing in items:
             if key in seen:
                 continue
             seen.add(key)
-            ok = key in reviewed
+            # reviewed as it stands, or built only from what the reviewed exits of the same kind test (the same
+            # conditions regrouped, negated, split over a helper or a temporary): not a new cut-off
+            new_atoms = {a for a in key_atoms(key) - allowed.get(category(key), set()) if not STRUCTURAL(a)}
+            ok = key in reviewed or not new_atoms
+            if not ok and kind == "exit" and "|loop-or-after|" in key:
+                # a return after (or out of) the move loop hands back what the loop found; leaving the loop early is
+                # judged as `leave-loop`, skipping a move as `skip`. How the result is assembled is not a cut-off.
+                ctx.lost(rid, "%s: a return after the move loop assembled under conditions the reviewed ones do not use (%s)" % (name, sorted(new_atoms)))
+                continue
+            if ok and key not in reviewed and "local" in key_atoms(key) - allowed.get(category(key), set()):
+                ctx.lost(rid, "%s: %s under a variable this rule cannot trace to a test (%s)" % (name, {"exit": "a return", "skip": "a move-loop skip", "leave": "a way out of the move loop"}[kind], key))
+                continue
             ctx.ob(rid, key, ok,
-                   "" if ok else "%s has a %s that is not in the reviewed inventory: the search stops (or skips a move) under a condition nobody argued sound - a cut-off that discards a line which could still change the value (delta/futility/null-move style pruning, an early fail-low before any move was searched) changes minimax values" % (name, {"exit": "return", "skip": "move-loop skip", "leave": "way out of the move loop"}[kind]),
+                   "" if ok else "%s has a %s that depends on %s, which no reviewed exit of that kind depends on: the search stops (or skips a move) under a condition nobody argued sound - a cut-off that discards a line which could still change the value (delta/futility/null-move style pruning, an early fail-low before any move was searched) changes minimax values" % (name, {"exit": "return", "skip": "move-loop skip", "leave": "way out of the move loop"}[kind], sorted(new_atoms)),
                    ctx.where(f, line), sample={"key": key, "reason": reviewed.get(key, "")[:160]})
     gone = sorted(set(reviewed) - seen)
     ctx.extra["reviewed_exits_not_present"] = gone
@@ -510,6 +733,16 @@ def r3_no_moves_flag(ctx):
                                      for (a2, s2) in cfg.control_deps_transitive(tb)) or _after_valid(cfg, f, ex, tb, BB) for tb in trues)
                     if backed and val == want_true:
                         return "flag local _%d (set only after a validated make) == %s" % (d[1], want_true)
+                    if not backed and val == want_true:
+                        # the flag is set under the outcome of something this rule cannot see through (an enum
+                        # result of a helper that makes, validates and searches the move): no verdict
+                        for tb in trues:
+                            for (a2, s2) in cfg.control_deps_transitive(tb):
+                                sw2 = f["blocks"][a2]["term"]
+                                if sw2["k"] == "switch":
+                                    d2 = ex.operand(sw2["discr"])
+                                    if d2[0] == "discr" and d2[1][0] == "local" and len(ex.defs.get(d2[1][1], [])) > 1:
+                                        return "?untraceable"
         return None
     sites = [b for b in sorted(cfg.reach) if f["blocks"][b]["term"]["k"] == "call" and f["blocks"][b]["term"]["callee"].get("key") == SEARCH + "evaluate"]
     if not sites:
@@ -542,6 +775,9 @@ def r3_no_moves_flag(ctx):
                     problems.append("computed by %s" % (show(ex.rvalue(d[3])) if d[0] == "stmt" else (d[3]["callee"].get("key") or "?")))
             if not ex.defs.get(l):
                 problems.append("parameter or unknown value")
+        if any(p_ == "?untraceable" for p_ in proofs) and not problems:
+            ctx.lost(rid, "evaluate call %d: the flag that says whether a legal move was found is set under a helper's result" % n)
+            continue
         ctx.ob(rid, "search_negamax|evaluate-call-%d" % n, not problems,
                "" if not problems else "search_negamax tells the evaluator whether legal moves remain with a value that is %s: a move-less position that is not in check (stalemate) or a mate can then be valued by the static evaluation"
                % "; ".join(problems), ctx.where(f, t["line"]), sample={"call": n, "flag_backed_by": proofs})
@@ -590,7 +826,16 @@ def r5_move_lists(ctx):
                 continue
             k = t["callee"].get("key") or ""
             if k.rsplit("::", 1)[-1] in SHRINK and ("Vec" in k or "vec" in k):
-                shr.append((k.rsplit("::", 1)[-1], t["line"]))
+                # at the root the list is filtered by searchmoves (filter_search_moves, possibly spliced in): a shrink
+                # that only happens under a test of the distance from the root is that filter
+                at_root = False
+                if name == "search_negamax":
+                    for (a_, sb_) in cfg.control_deps_transitive(b):
+                        sw_ = f["blocks"][a_]["term"]
+                        if sw_["k"] == "switch" and any(x == ("param", 3) for x in leaves(ex.operand(sw_["discr"]))):
+                            at_root = True
+                if not at_root:
+                    shr.append((k.rsplit("::", 1)[-1], t["line"]))
         ctx.ob(rid, "%s|list-not-shrunk-before-loop" % name, not shr, "" if not shr else "%s shrinks a move list before its loop with %s" % (name, shr), ctx.where(f, shr[0][1] if shr else None))
 
 
